@@ -17,9 +17,17 @@ import (
 type vhKS struct {
 	key  *rsa.PrivateKey
 	cert []byte
+	fail bool // the key store is (transiently) unavailable
 }
 
-func (k *vhKS) GetKeyPair() (*rsa.PrivateKey, []byte, error) { return k.key, k.cert, nil }
+var errVHKeyStore = errors.New("vh: key store unavailable")
+
+func (k *vhKS) GetKeyPair() (*rsa.PrivateKey, []byte, error) {
+	if k.fail {
+		return nil, nil, errVHKeyStore
+	}
+	return k.key, k.cert, nil
+}
 
 type vhSigner struct{ id int }
 
@@ -32,6 +40,7 @@ func (s *vhSigner) Sign(rand io.Reader, digest []byte, opts crypto.SignerOpts) (
 // / default signing key, s = explicit signing key) and the selections DESIGN B.8 prescribes.
 type vhKeyCfg struct {
 	Fe, Fs, Oe, Os     bool
+	FsFail             bool // the explicit signing key store (field) fails to deliver its key pair
 	keyA, keyB         *rsa.PrivateKey
 	sigC, sigD         *vhSigner
 	certA, certB       []byte
@@ -59,7 +68,8 @@ func vhConfigureKeys(sp *SAMLServiceProvider, tlsField bool) *vhKeyCfg {
 		}
 	}
 	if c.Fs {
-		sp.SPSigningKeyStore = &vhKS{key: c.keyB, cert: c.certB}
+		c.FsFail = vFlag("cfg.SPSigningKeyStore.unavailable")
+		sp.SPSigningKeyStore = &vhKS{key: c.keyB, cert: c.certB, fail: c.FsFail}
 	}
 	if c.Oe {
 		sp.SetSPKeyStore(&KeyStore{Signer: c.sigC, Cert: c.certC})
@@ -136,6 +146,11 @@ func VH_C13_signing_key() {
 	sp := &SAMLServiceProvider{Clock: vClock("sp"), SignAuthnRequestsAlgorithm: vString("sigAlg")}
 	c := vhConfigureKeys(sp, false)
 	reported, rerr := sp.GetSigningCertBytes()
+	if c.haveSign && c.signFieldKey == c.keyB && c.FsFail {
+		vReach("signing-store-unavailable", true)
+		vAssert("C13.unavailable-signing-store-is-an-error-not-another-key", rerr != nil)
+		return
+	}
 	if !c.haveSign {
 		// no key at all: the SP cannot sign; only the reported certificate is checked
 		vReach("no-key", true)
@@ -170,6 +185,11 @@ func VH_C19_keys() {
 	}
 	md, err := sp.Metadata()
 	vAssert("C19.result-xor-error", (md != nil) != (err != nil))
+	if c.haveSign && c.signFieldKey == c.keyB && c.FsFail {
+		vReach("signing-store-unavailable", true)
+		vAssert("C19.unavailable-signing-store-is-an-error-not-another-key", err != nil)
+		return
+	}
 	if err != nil {
 		// only an empty certificate of a key that must be published may make metadata fail
 		vAssert("C19.metadata-error-only-for-empty-published-cert", vOr(c.haveSign && len(c.signCert) == 0, c.haveDec && len(c.decCert) == 0))
